@@ -76,8 +76,15 @@ def is_exc(v):
     return isinstance(v, tuple) and len(v) == 2 and isinstance(v[0], str) and v[0] == "EXC"
 
 
+_SEL_CYCLES = {}
+
+
 def rand_modes_arg(rng, n):
-    """every kind of mode argument"""
+    """every kind of mode argument; half of the time the next element of a cycle through ALL ordered selections of n modes"""
+    if rng.random() < 0.45 and n >= 2:
+        if n not in _SEL_CYCLES:
+            _SEL_CYCLES[n] = itertools.cycle(S.ordered_subsets(n))
+        return list(next(_SEL_CYCLES[n]))
     u = rng.random()
     if u < 0.35:
         k = rng.randint(1, n)
@@ -752,10 +759,14 @@ def compare(ctx, rep, obs, exp, tol, against, rp, skip=()):
         else:
             ok = close(np.asarray(got), np.asarray(want), tol)
         if not ok:
-            g, w = np.asarray(got[0] if isinstance(got, tuple) else got), np.asarray(want[0] if isinstance(want, tuple) else want)
+            if isinstance(got, tuple):      # report the component that differs most
+                bad = [(g_, w_) for g_, w_ in zip(got, want) if not close(g_, w_, tol)]
+                got, want = bad[0] if bad else (got[0], want[0])
+            g, w = np.asarray(got), np.asarray(want)
             d = float(np.max(np.abs(g - w))) if g.shape == w.shape and g.size else float("nan")
             ctx.fail(f"{meth}:{rep}:vs-{against}", f"{rep} {key} disagrees with the {against} (max diff {d:.3g}, shapes "
                      f"{g.shape}/{w.shape}; got {np.ravel(g)[:4]}, want {np.ravel(w)[:4]})", rp)
+            ctx.failures[-1]["diff"] = d
 
 
 def internal_identities(ctx, rep, obs, n, D, rp, tol):
@@ -897,7 +908,16 @@ def escalate(ctx, n0, rerun):
     shadow = core.Ctx(ctx.pid, ctx.tier, ctx.seed)
     shadow.proof_ok = False
     rerun(shadow)
-    still = {f["sig"] for f in shadow.failures}
+    def worst(fs):
+        out = {}
+        for f in fs:
+            d = f.get("diff", float("inf"))
+            d = float("inf") if d != d else d
+            out[f["sig"]] = max(out.get(f["sig"], 0.0), d)
+        return out
+    before, after = worst(trunc), worst(shadow.failures)
+    # it is a violation only if it does not die with the truncation error: delta(D') > max(1e-6, delta(D) / 2)
+    still = {sig for sig, d in after.items() if sig in before and d > max(1e-6, before[sig] / 2)}
     ctx.failures[n0:] = [f for f in ctx.failures[n0:] if f not in trunc or f["sig"] in still]
 
 
@@ -1129,7 +1149,7 @@ def run(ctx, sf):
         corr_bosonic(ctx, sf, ctx.n(250, 2500))
     check_post(ctx, sf, ctx.n(150, 1500))
     kinds = ["product", "product+bs", "mixed", "pure"]
-    for it in range(ctx.n(16, 160)):
+    for it in range(ctx.n(24, 200)):
         kind = kinds[it % 4]
         n = [2, 2, 3, 2, 1, 3, 2, 4][it % 8]
         if ctx.tier == "quick" and n == 3 and kind != "product" and it % 3:
@@ -1138,11 +1158,11 @@ def run(ctx, sf):
         hbar = HB if it % 5 else rng.choice([1.0, 0.5])
         D = {1: 14, 2: 11, 3: 7, 4: 6}[n]
         check_cross(ctx, sf, spec, hbar, D, rng.getrandbits(30))
-    for it in range(ctx.n(10, 100)):
+    for it in range(ctx.n(14, 120)):
         n = [2, 1, 2, 3][it % 4]
         D = {1: 9, 2: 7, 3: 5}[n]
         check_fock_only(ctx, sf, fock_nongauss_spec(rng, n), D, it % 2 == 0, rng.getrandbits(30))
-    for it in range(ctx.n(5, 50)):
+    for it in range(ctx.n(6, 50)):
         n = [2, 1, 2][it % 3]
         check_bosonic_vs_fock(ctx, sf, bosonic_nongauss_spec(rng, n), {1: 16, 2: 13}[n], rng.getrandbits(30))
     sf.hbar = HB
